@@ -92,6 +92,11 @@ def gen(seed, tier):
         n += 1
         cases.append(H("C01-b%d" % n, o, [blob(0, b"\n".join(x if isinstance(x, bytes) else x.encode() for x in body))]))
         n += 1
+    # (b2) the input ENDS in an over-long line without a newline (every typical buffer size): end of file is still reached
+    for k, size in enumerate([4095, 4096, 4097, 8192, 65536, 65537, 70000]):
+        for fill in (b"A", b"z"):
+            cases.append(H("C01-e%d" % n, optsets[k % 4], [blob(0, sentinel().encode() + b"\n" + fill * size)]))
+            n += 1
     # (c) the CLI itself (exit status, stderr) on hostile files; both profiles are run by vcheck
     for o in ({"i": "aAews", "u": -1}, {"i": "Q", "u": 3, "U": 1, "R": 1, "c": 1}, {"i": "aAews", "u": -1, "l": 2, "R": 1}, {"i": "e", "u": -1, "l": 1, "U": 1}):
         part = r.sample(lines, 60) + [sentinel()]
@@ -167,7 +172,7 @@ def oracle(parts, outcome, obs):
     oc = outcome.replace("+slow", "")
     if oc != "ok":
         return "implementation outcome '%s' (panic/abort/non-zero exit) %s" % (oc, obs[:200])
-    if parts[1] == "H" and ("C01-h" in parts[0] or "C01-j" in parts[0] or "C01-b" in parts[0] or "C01-x" in parts[0] or "C01-m" in parts[0]):
+    if parts[1] == "H" and ("C01-h" in parts[0] or "C01-j" in parts[0] or "C01-b" in parts[0] or "C01-x" in parts[0] or "C01-m" in parts[0] or "C01-e" in parts[0]):
         opts = pyspec.case_opts(parts)
         if not pyspec.passes_filter(opts, 17) or int(opts.get("d", "60")) <= 0:
             return None
@@ -196,7 +201,7 @@ def extra_checks(profile):
 
 CLAIM = {
     "text": "Theorems C01_reader_total / C01_cli_total / C01_lines_total / C01_progress / C01_frames_wellformed (Coq, closed under the global context): for every byte stream, table, option record and time the model of read_lines (and of everything printed) returns Ok -- no slice index, sub-slice, expect/unwrap or unsigned-subtraction panic is reachable -- and every line after any prefix is still processed. Tied to the code by running hostile streams (every DF against both lengths, altitude codes below 0 ft, rate/velocity fields 0, CPR extremes, all Comm-B registers, non-hex, non-UTF-8, 70 kB lines, the bundled recordings) through the reader thread and the built CLI in the dev profile (overflow checks on) and the release profile, with a sentinel frame after the hostile ones.",
-    "note": "Partial in one respect: the theorem covers the panic sources the model represents; arithmetic is exact in the model, so absence of integer overflow in the Rust code is shown by the dev-profile runs, not by the theorem. std/chrono/clap internals, allocation and -u/-d values beyond chrono's range are outside the model.",
+    "note": "Partial in one respect: the theorem covers the panic sources the model represents; arithmetic is exact in the model, so absence of integer overflow in the Rust code is shown by the dev-profile runs, not by the theorem -- except for the one quantity that grows with the input, the -c counters, which C01_counters_cannot_overflow / C01_counter_capacity bound against their declared type (defect D14). std/chrono/clap internals, allocation and -u/-d values beyond chrono's range are outside the model.",
     "technique": "Coq totality proof over the res-monad model (all inputs, by structural lemmas per decoder) + dev/release differential runs incl. CLI and recordings",
 }
 
